@@ -43,6 +43,7 @@ structure PDrv where
   up   : Bool := true
   win  : List (String × Nat) := []      -- window (seconds) of the running life per key, for the spec monitor
   conn : Conn := {}                     -- link state and script cache of the store client's path
+  forged : Option Forged := none        -- the server answers EVALSHA without running the script
 
 def insertNat (x : Nat) : List Nat → List Nat
   | [] => [x]
@@ -67,6 +68,13 @@ def parseLink : String → Option Link
   | "up" => some .up | "down" => some .down | "noscript" => some .noscript
   | "noscriptdown" => some .noscriptDown | "shadown" => some .shaDown | _ => none
 
+def parseForged : String → Option Forged
+  | "strreply" => some .str | "int3reply" => some (.int 3) | "intm1reply" => some (.int (-1))
+  | "nilreply" => some .nil | _ => none
+
+def Forged.describe : Forged → String
+  | .str => "a string" | .int v => s!"the integer {v}" | .nil => "a nil reply"
+
 def tripsStr (ts : List Trip) : String :=
   if ts.isEmpty then "rt=-" else "rt=" ++ "+".intercalate (ts.map Trip.str)
 
@@ -81,8 +89,10 @@ def tripsSane (tok : String) : Bool :=
   tok == "rt=-" || tok == "rt=evalsha" || tok == "rt=evalsha+eval"
 
 /-- compare the `rt=` token of a sequential call with the model; returns the report and the connection afterwards -/
-def checkTrips (r : Report) (sidx lidx : Nat) (what : String) (c : Conn) (tok : String) (sent : Bool) : Report × Conn :=
-  let (exp, c') := if sent then tripsOf c else ("rt=-", c)
+def checkTrips (r : Report) (sidx lidx : Nat) (what : String) (c : Conn) (tok : String) (sent : Bool)
+    (forged : Bool := false) : Report × Conn :=
+  -- a forged reply answers the EVALSHA itself: one round trip, the server's script cache is not touched
+  let (exp, c') := if sent then (if forged then ("rt=evalsha", c) else tripsOf c) else ("rt=-", c)
   let r := if exp ≠ tok then r.mismatch sidx lidx s!"{what}: {exp}" s!"{what}: {tok}" else r
   let r := if !tripsSane tok then
       r.violation sidx lidx s!"{what}: one call sent the script more than once or without EVALSHA first ({tok}): a request must be counted exactly once"
@@ -147,20 +157,41 @@ def windowFor (align : Bool) (period : Int) (fresh : Bool) (obs : List String) (
               | some ms => ms / 1000
               | none => 0
             if cands.contains seen then some (.inl seen)
+            else if (cntTtl cntTok).isNone then
+              -- no counter under the limiter's own key: not a question of alignment (correspondence broken)
+              some (.inr s!"no counter with a TTL under the limiter's key after the take that should have created it ({cntTok})")
             else some (.inr s!"window {seen}s is not period - (unix % period) for unix in [{u0},{u1}] (period={period})")
 
 def runPeriod (r : Report) (s : Section) : Report := Id.run do
   let quotaZ := kvInt s.cfg "quota" 1
   let periodZ := kvInt s.cfg "period" 1
-  let align := kvNat s.cfg "align" 0 == 1
+  -- the limiter is aligned iff the option list is not empty (`new_period_limit_fields`); `nopt` = its length
+  let nopt := kvNat s.cfg "nopt" (kvNat s.cfg "align" 0)
+  let align := (newPeriodLimit periodZ quotaZ "" (List.replicate nopt POpt.align)).align
   let quota := quotaZ.toNat
   let mut d : PDrv := {}
   let mut r := r
   if quotaZ ≤ 0 then r := r.addCover "p-sec-quota-nonpositive"
   if periodZ ≤ 0 then r := r.addCover "p-sec-period-nonpositive"
   if align then r := r.addCover "p-sec-align"
+  if nopt > 1 then r := r.addCover "p-sec-align-option-repeated"
   if align && kvInt s.cfg "tz" 0 ≠ 0 then r := r.addCover "p-sec-align-zone-offset"
   if kvNat s.cfg "nlim" 1 > 1 then r := r.addCover "p-sec-several-limiters"
+  let npre := max 1 (kvNat s.cfg "npre" 1)
+  let pre (j : Nat) : String := s!"p{j % npre}:"
+  if npre > 1 then r := r.addCover "p-sec-several-prefixes"
+  let typeOk := (kv? s.cfg "rtype").getD "node" != "bogus"
+  if !typeOk then r := r.addCover "p-sec-client-type-unsupported"
+  -- `getRedis` rejects the client's type: `(Unknown, err)` before anything is sent, whatever the context
+  let badType (r : Report) (l : Line) (d : PDrv) (k0 k : String) : Report := Id.run do
+    let mut r := r.addCover "p-take-client-type-unsupported"
+    let res := (PVSys.take quota 0 false ⟨d.sys.store, d.conn⟩ k).2
+    let model := s!"{res.1.1.toNat} {res.1.2.str} {dumpKey d.sys.store "cnt" k} {tripsStr res.2}"
+    let implCmp := joinSp (l.obs.take 4)
+    if model ≠ implCmp then r := r.mismatch s.idx l.idx model implCmp
+    if l.obs.headD "?" ≠ "0" || (l.obs.drop 1).headD "nil" = "nil" then
+      r := r.violation s.idx l.idx s!"period: the store client cannot reach any server (unsupported type) but take {k0} answered [{joinSp (l.obs.take 2)}] (must be Unknown + error)"
+    return r
   for l in s.lines do
     r := { r with ops := r.ops + 1 }
     let impl := joinSp l.obs
@@ -173,38 +204,62 @@ def runPeriod (r : Report) (s : Section) : Report := Id.run do
         if impl ≠ "ok" then r := r.mismatch s.idx l.idx "ok" impl
       | none => r := r.mismatch s.idx l.idx "bad-op" (joinSp l.op)
     | ["down"] =>
-      d := { d with sys := (d.sys.step quota 0 .down).1, up := false, conn := { d.conn with link := .down } }
+      d := { d with sys := (d.sys.step quota 0 .down).1, up := false, conn := { d.conn with link := .down }, forged := none }
       r := r.addCover "p-down"
       if impl ≠ "ok" then r := r.mismatch s.idx l.idx "ok" impl
     | ["up"] =>
-      d := { d with sys := (d.sys.step quota 0 .up).1, up := true, conn := { d.conn with link := .up } }
+      d := { d with sys := (d.sys.step quota 0 .up).1, up := true, conn := { d.conn with link := .up }, forged := none }
       r := r.addCover "p-up"
       if impl ≠ "ok" then r := r.mismatch s.idx l.idx "ok" impl
     | ["link", m] =>
-      match parseLink m with
-      | some lk =>
-        d := { d with sys := (d.sys.step quota 0 (PVOp.abs (.link lk))).1, up := lk.serves, conn := { d.conn with link := lk } }
+      match parseLink m, parseForged m with
+      | some lk, _ =>
+        d := { d with sys := (d.sys.step quota 0 (PVOp.abs (.link lk))).1, up := lk.serves, conn := { d.conn with link := lk }, forged := none }
         r := r.addCover s!"p-link-{m}"
         if impl ≠ "ok" then r := r.mismatch s.idx l.idx "ok" impl
-      | none => r := r.mismatch s.idx l.idx "bad-op" (joinSp l.op)
-    | "takex" :: k :: _ =>
+      | none, some f =>
+        -- the transport works (link up), the answer to EVALSHA is forged
+        d := { d with sys := (d.sys.step quota 0 .up).1, up := true, conn := { d.conn with link := .up }, forged := some f }
+        r := r.addCover s!"p-link-{m}"
+        if impl ≠ "ok" then r := r.mismatch s.idx l.idx "ok" impl
+      | none, none => r := r.mismatch s.idx l.idx "bad-op" (joinSp l.op)
+    | "takex" :: k :: _ | "taked" :: k :: _ =>
+      let ck : CtxKind := if l.op.headD "" == "takex" then .cancelled else .expired
+      let cls := if ck = .cancelled then "canceled" else "deadline"
+      let k0 := k
+      let k := pre 0 ++ k
       if (calcExpireZ align periodZ 0).isNone then
         -- the window is computed before the script call: `unix % 0` panics whatever the context or the store
         r := r.addCover "p-align-period-zero-panics"
         if !(l.obs.headD "" == "PANIC" && l.obs.contains "divide") then
           r := r.mismatch s.idx l.idx "PANIC runtime error: integer divide by zero" impl
         continue
-      -- cancelled context: (Unknown, context.Canceled), the store is not touched
-      r := r.addCover "p-take-cancelled"
-      let model := s!"0 canceled {dumpKey d.sys.store "cnt" k}"
+      if !typeOk then
+        r := badType r l d k0 k
+        continue
+      -- cancelled context / deadline passed: (Unknown, the context's error), the store is not touched
+      r := r.addCover (if ck = .cancelled then "p-take-cancelled" else "p-take-deadline-passed")
+      if d.forged.isSome then r := r.addCover "p-take-ctx-error-while-replies-forged"
+      if !d.up then r := r.addCover "p-take-ctx-error-while-down"
+      let res := takeOutcome ck (.int 1)
+      let model := s!"{res.1.toNat} {cls} {dumpKey d.sys.store "cnt" k}"
       let implCmp := joinSp (l.obs.take 3)
       if model ≠ implCmp then r := r.mismatch s.idx l.idx model implCmp
       if l.obs.headD "?" ≠ "0" || (l.obs.drop 1).headD "nil" = "nil" then
-        r := r.violation s.idx l.idx s!"period: cancelled take {k} answered [{joinSp (l.obs.take 2)}] (must be Unknown + error)"
+        r := r.violation s.idx l.idx s!"period: take {k0} with a context that is {if ck = .cancelled then "cancelled" else "past its deadline"} answered [{joinSp (l.obs.take 2)}] (must be Unknown + error)"
       -- a cancelled context never reaches the server
       let (r', c') := checkTrips r s.idx l.idx "cancelled take" d.conn ((l.obs.drop 3).headD "") false
       r := r'; d := { d with conn := c' }
-    | "take" :: k :: _ | "takec" :: k :: _ | "ftake" :: k :: _ =>
+    | "take" :: k :: _ | "takec" :: k :: _ | "ftake" :: k :: _ | "takef" :: k :: _ =>
+      -- which limiter (takec names it): its prefix is part of the Redis key
+      let lim : Nat := if l.op.headD "" == "takec" then ((l.op.drop 2).headD "0").toNat?.getD 0 else 0
+      if l.op.headD "" == "takec" && (lim ≥ kvNat s.cfg "nlim" 1 || (l.op.drop 2).isEmpty) then
+        r := r.mismatch s.idx l.idx "bad-op" (joinSp l.op)
+        continue
+      let k0 := k
+      let k := pre lim ++ k
+      if npre > 1 && lim % npre ≠ 0 then r := r.addCover "p-take-other-prefix"
+      if l.op.headD "" == "takef" then r := r.addCover "p-take-deadline-far-away"
       if l.op.headD "" == "ftake" then
         -- SCRIPT FLUSH first: the server's cache no longer knows the script
         d := { d with conn := { d.conn with loaded := false } }
@@ -215,6 +270,22 @@ def runPeriod (r : Report) (s : Section) : Report := Id.run do
         r := r.addCover "p-align-period-zero-panics"
         if !(l.obs.headD "" == "PANIC" && l.obs.contains "divide") then
           r := r.mismatch s.idx l.idx "PANIC runtime error: integer divide by zero" impl
+      else if !typeOk then
+        r := badType r l d k0 k
+      else if d.forged.isSome then
+        -- the server answers the EVALSHA itself, the script does not run: decoding of every reply kind
+        let f := d.forged.getD .str
+        let res := takeOutcome .background f.resp
+        let model := s!"{res.1.toNat} {res.2.str} {dumpKey d.sys.store "cnt" k}"
+        let implCmp := joinSp (l.obs.take 3)
+        if model ≠ implCmp then r := r.mismatch s.idx l.idx model implCmp
+        r := r.addCover (match f with | .str => "p-take-reply-string" | .int _ => "p-take-reply-integer-no-code" | .nil => "p-take-reply-nil")
+        let obsCode := (l.obs.headD "?")
+        let obsErr := (l.obs.drop 1).headD "?"
+        if !(f = .int 1 || f = .int 2 || f = .int 0) && (obsCode ≠ "0" || obsErr = "nil") then
+          r := r.violation s.idx l.idx s!"period: the server answered {f.describe} without running the script but take {k0} answered [{obsCode} {obsErr}] (only the script's integer replies 1 and 2 grant, 0 is OverQuota; anything else must be Unknown + error)"
+        let (r', c') := checkTrips r s.idx l.idx s!"take {k0}" d.conn ((l.obs.drop 3).headD "") true true
+        r := r'; d := { d with conn := c' }
       else if !d.up then
         let res := d.sys.take quota 0 k
         let model := s!"{res.2.1.toNat} {res.2.2.str} {dumpKey d.sys.store "cnt" k}"
@@ -254,11 +325,15 @@ def runPeriod (r : Report) (s : Section) : Report := Id.run do
         if fresh && clock > 0 then r := r.addCover "p-new-life-after-expiry"
         if align && fresh then r := r.addCover (if w = periodZ.toNat then "p-align-window-full" else "p-align-window-short")
         if obsCode ≠ toString code.toNat || obsErr ≠ "nil" then
-          r := r.violation s.idx l.idx s!"period: take {k} quota={quotaZ} period={periodZ} spec=[{code.toNat} nil] impl=[{obsCode} {obsErr}]"
+          r := r.violation s.idx l.idx s!"period: take {k0}{if npre > 1 then s!" (limiter {lim}, prefix {pre lim}, {npre} prefixes on one store)" else ""} quota={quotaZ} period={periodZ} spec=[{code.toNat} nil] impl=[{obsCode} {obsErr}]"
         let (r', c') := checkTrips r s.idx l.idx s!"take {k}" d.conn ((l.obs.drop 3).headD "") true
         r := r'; d := { d with conn := c' }
     | ["ctake", k, m] =>
-      if d.conn.link = .noscript || d.conn.link = .noscriptDown || d.conn.link = .shaDown || !d.conn.loaded then
+      if npre > 1 then
+        r := r.mismatch s.idx l.idx "no concurrent op in a section with several prefixes" impl
+        continue
+      let k := pre 0 ++ k
+      if d.forged.isSome || d.conn.link = .noscript || d.conn.link = .noscriptDown || d.conn.link = .shaDown || !d.conn.loaded then
         -- concurrent NOSCRIPT answers open the client's breaker (finding 3): the harness does not run these
         r := r.addCover "p-concurrent-skipped-in-link-mode"
         if impl ≠ "skipped-link" then r := r.mismatch s.idx l.idx "skipped-link" impl
@@ -292,7 +367,10 @@ def runPeriod (r : Report) (s : Section) : Report := Id.run do
           if obsCodes ≠ codesStr specCodes then
             r := r.violation s.idx l.idx s!"period: {m} concurrent takes on {k} quota={quotaZ} spec=[{codesStr specCodes}] impl=[{obsCodes}]"
     | ["cptake", g, c, ks] =>
-      if d.conn.link = .noscript || d.conn.link = .noscriptDown || d.conn.link = .shaDown || !d.conn.loaded then
+      if npre > 1 then
+        r := r.mismatch s.idx l.idx "no concurrent op in a section with several prefixes" impl
+        continue
+      if d.forged.isSome || d.conn.link = .noscript || d.conn.link = .noscriptDown || d.conn.link = .shaDown || !d.conn.loaded then
         -- concurrent NOSCRIPT answers open the client's breaker (finding 3): the harness does not run these
         r := r.addCover "p-concurrent-skipped-in-link-mode"
         if impl ≠ "skipped-link" then r := r.mismatch s.idx l.idx "skipped-link" impl
@@ -311,7 +389,8 @@ def runPeriod (r : Report) (s : Section) : Report := Id.run do
         for k in keys do
           -- goroutines j < g with j % nk = ki, c takes each
           let cnt := ((List.range g).filter fun j => j % nk == ki).length * c
-          let fresh := (d.sys.store.get k).isNone && cnt > 0
+          let fk := pre 0 ++ k
+          let fresh := (d.sys.store.get fk).isNone && cnt > 0
           let cntTok := (l.obs.drop (2 * ki + 1)).headD ""
           match (if d.up then windowFor align periodZ fresh l.obs cntTok else some (.inl 0)) with
           | none => bad := some "no concurrent op in a section whose takes panic"
@@ -320,15 +399,15 @@ def runPeriod (r : Report) (s : Section) : Report := Id.run do
             let mut tm : Tally := {}
             let mut ts : Tally := {}
             for _ in [0:cnt] do
-              let res := d.sys.take quota w k
+              let res := d.sys.take quota w fk
               d := { d with sys := res.1 }
               tm := tm.add res.2.1 (res.2.2 ≠ .nil)
               if d.up then
-                let (d', code) := specTake quota d clock k w
+                let (d', code) := specTake quota d clock fk w
                 d := d'
                 ts := ts.add code false
               else ts := ts.add .unknown true
-            modelParts := modelParts ++ [s!"{k}={tm.str}", dumpKey d.sys.store "cnt" k]
+            modelParts := modelParts ++ [s!"{k}={tm.str}", dumpKey d.sys.store "cnt" fk]
             if cnt > quota then r := r.addCover "p-cptake-over-quota"
             let obsT := (l.obs.drop (2 * ki)).headD ""
             if obsT ≠ s!"{k}={ts.str}" then
@@ -359,6 +438,7 @@ structure TDrv where
   rmono   : Nat → Bool := fun _ => true -- hypothesis of rescue_local_bound: those `now`s never went backwards
   conn    : Conn := {}                  -- link state and script cache of the store client's path
   pingOk  : Bool := true                -- the server answers PING with PONG (only in link state `up`)
+  forged  : Option Forged := none       -- the server answers EVALSHA without running the script
 
 def tokDump (c : TCfg) (s : Store) : String := s!"{dumpKey s "tok" c.k1} {dumpKey s "ts" c.k2}"
 
@@ -378,7 +458,9 @@ def timedOk (ttl : Nat) (hist : List (Nat × Nat)) (clock sec : Nat) : Bool :=
 then the monitors. Returns the model's decision, the deciding bucket, whether the float boundary was taken. -/
 def tokAllow (c : TCfg) (d : TDrv) (i ns n : Nat) (implOk : Option Bool) : TDrv × Bool × Route × Bool :=
   let inst := d.sys.insts i
-  let res := d.sys.reserveN true c i ns n
+  let res := match d.forged with
+    | some f => d.sys.reserveForged c i ns n f
+    | none => d.sys.reserveN true c i ns n
   -- exact deficit of exactly one ns: the float computation of x/time/rate may round either way
   let boundary := res.2.route = .rescue && c.ival ≠ 0 && n ≤ c.burst &&
     ((if inst.alive then inst.startMonitor else inst).rescue.after c ns n == -1)
@@ -403,7 +485,12 @@ def noteRescue (d : TDrv) (i ns : Nat) : TDrv :=
 
 /-- a granted request of size `n` decided locally by instance `i` at `ns`: the local meter -/
 def localGrant (c : TCfg) (burst rate : Nat) (r : Report) (s : Section) (l : Line) (d : TDrv) (i ns n : Nat) : TDrv × Report :=
-  if c.ival = 0 || !d.rmono i then (d, r) else
+  if c.ival = 0 then (d, r) else
+  -- `rescue_grant_needs_n_le_burst`: the local limiter never grants more than its size at once
+  let r := if n > burst then
+      r.violation s.idx l.idx s!"token: instance {i} granted a request for n={n} > burst={burst} tokens with its local limiter (the request's size must reach the limiter)"
+    else r
+  if !d.rmono i then (d, r) else
   let m := (d.local_ i).add 1 ns (n * c.ival)
   let d := { d with local_ := fun j => if j = i then m else d.local_ j }
   if m.level > burst * c.ival + d.slack i then
@@ -430,6 +517,12 @@ def runToken (r : Report) (s : Section) : Report := Id.run do
   let mut abandoned := false
   if burst = 0 then r := r.addCover "t-sec-burst-zero"
   if ninst > 1 then r := r.addCover "t-sec-several-instances"
+  let typeOk := (kv? s.cfg "rtype").getD "node" != "bogus"
+  if !typeOk then
+    -- `getRedis` rejects the client's type: every script call fails before anything is sent (a store that is down
+    -- for ever, without round trips), no ping can succeed
+    r := r.addCover "t-sec-client-type-unsupported"
+    d := { d with sys := (d.sys.step true c .down).1, up := false, conn := { d.conn with link := .down }, pingOk := false }
   for l in s.lines do
     if abandoned then continue
     r := { r with ops := r.ops + 1 }
@@ -449,20 +542,25 @@ def runToken (r : Report) (s : Section) : Report := Id.run do
         if impl ≠ "ok" then r := r.mismatch s.idx l.idx "ok" impl
       | none => r := r.mismatch s.idx l.idx "bad-op" (joinSp l.op)
     | ["down"] =>
-      d := { d with sys := (d.sys.step true c .down).1, up := false, conn := { d.conn with link := .down }, pingOk := false }
+      d := { d with sys := (d.sys.step true c .down).1, up := false, conn := { d.conn with link := .down }, pingOk := false, forged := none }
       r := r.addCover "t-down"
       if impl ≠ "ok" then r := r.mismatch s.idx l.idx "ok" impl
     | ["link", m] =>
-      match parseLink m with
-      | some lk =>
+      match parseLink m, parseForged m with
+      | some lk, _ =>
         if lk = .up || lk = .down then r := r.mismatch s.idx l.idx "bad-op" (joinSp l.op)
         else
           -- noscript: scripts are served through the EVAL fallback, PING is held (like `upstore`); the others: like `down`
           d := { d with sys := (d.sys.step true c (if lk.serves then .up else .down)).1, up := lk.serves,
-                        conn := { d.conn with link := lk }, pingOk := false }
+                        conn := { d.conn with link := lk }, pingOk := false, forged := none }
           r := r.addCover s!"t-link-{m}"
           if impl ≠ "ok" then r := r.mismatch s.idx l.idx "ok" impl
-      | none => r := r.mismatch s.idx l.idx "bad-op" (joinSp l.op)
+      | none, some f =>
+        -- the transport works, EVALSHA is answered with a forged reply, PING is held
+        d := { d with sys := (d.sys.step true c .up).1, up := true, conn := { d.conn with link := .up }, pingOk := false, forged := some f }
+        r := r.addCover s!"t-link-{m}"
+        if impl ≠ "ok" then r := r.mismatch s.idx l.idx "ok" impl
+      | none, none => r := r.mismatch s.idx l.idx "bad-op" (joinSp l.op)
     | ["ping"] =>
       let exp := pingResult true (if d.pingOk then some "PONG" else none)
       let model := s!"ping={b2s exp} raw={if d.pingOk then "PONG" else "err"}"
@@ -474,7 +572,7 @@ def runToken (r : Report) (s : Section) : Report := Id.run do
         r := r.violation s.idx l.idx s!"token: PING fails but Redis.Ping() reports success [{impl}]: an instance would return to a store that is unreachable"
     | ["upstore"] =>
       -- scripts are served again, no ping has succeeded yet: no pingOk / monExit event
-      d := { d with sys := (d.sys.step true c .up).1, up := true, conn := { d.conn with link := .up } }
+      d := { d with sys := (d.sys.step true c .up).1, up := true, conn := { d.conn with link := .up }, forged := none }
       r := r.addCover "t-upstore"
       if (List.range ninst).any fun i => !(d.sys.insts i).alive then r := r.addCover "t-upstore-some-instance-in-rescue"
       if impl ≠ "ok" then r := r.mismatch s.idx l.idx "ok" impl
@@ -491,7 +589,7 @@ def runToken (r : Report) (s : Section) : Report := Id.run do
           for j in [0:ninst] do
             sys := (sys.step true c (.pingOk j)).1
             sys := (sys.step true c (.monExit j)).1
-        d := { d with sys := sys, up := true, conn := { d.conn with link := .up }, pingOk := true }
+        d := { d with sys := sys, up := true, conn := { d.conn with link := .up }, pingOk := true, forged := none }
         r := r.addCover (if inWindow then "t-latefail-in-monitor-window" else "t-latefail-plain")
         if l.obs.headD "" = "PINGBROKEN" then
           r := r.violation s.idx l.idx s!"token: the server answers PING with PONG but Redis.Ping() reports false [{impl}]: the monitor goroutine can never bring an instance back from its local limiter to the shared bucket"
@@ -509,7 +607,7 @@ def runToken (r : Report) (s : Section) : Report := Id.run do
       for i in [0:ninst] do
         sys := (sys.step true c (.pingOk i)).1
         sys := (sys.step true c (.monExit i)).1
-      d := { d with sys := sys, up := true, conn := { d.conn with link := .up }, pingOk := true }
+      d := { d with sys := sys, up := true, conn := { d.conn with link := .up }, pingOk := true, forged := none }
       r := r.addCover "t-up"
       if l.obs.headD "" = "PINGBROKEN" then
         r := r.violation s.idx l.idx s!"token: the server answers PING with PONG but Redis.Ping() reports false [{impl}]: the monitor goroutine can never bring an instance back from its local limiter to the shared bucket"
@@ -525,7 +623,7 @@ def runToken (r : Report) (s : Section) : Report := Id.run do
         if l.obs.headD "" = "STUCK" then
           r := r.violation s.idx l.idx s!"token: the store is reachable and no request has failed since, yet an instance stays on its local limiter for ever: {joinSp (l.obs.drop 1)} (no monitor goroutine will set redisAlive again)"
     | ["callow", ns, n, m] =>
-      if d.conn.link = .noscript || d.conn.link = .noscriptDown || d.conn.link = .shaDown || !d.conn.loaded then
+      if d.forged.isSome || d.conn.link = .noscript || d.conn.link = .noscriptDown || d.conn.link = .shaDown || !d.conn.loaded then
         r := r.addCover "t-concurrent-skipped-in-link-mode"
         if impl ≠ "skipped-link" then r := r.mismatch s.idx l.idx "skipped-link" impl
         continue
@@ -584,8 +682,11 @@ def runToken (r : Report) (s : Section) : Report := Id.run do
           d := d'; r := r'
       | _, _, _ => r := r.mismatch s.idx l.idx "bad-op" (joinSp l.op)
     | [verb, i, ns, n] =>
-      match (verb == "allow" || verb == "allowc" || verb == "allowx" || verb == "fallow"), i.toNat?, ns.toNat?, n.toNat? with
+      match (verb == "allow" || verb == "allowc" || verb == "allowx" || verb == "allowd" || verb == "allowf" || verb == "fallow"), i.toNat?, ns.toNat?, n.toNat? with
       | true, some i, some ns, some n =>
+        -- (an unsupported client type is reported by getRedis before the context is looked at)
+        let ck : CtxKind := if !typeOk then .background else if verb == "allowx" then .cancelled else if verb == "allowd" then .expired
+          else if verb == "allowf" then .future else .background
         -- the last token is the list of script round trips the call made
         let rtTok := l.obs.getLast?.getD ""
         let impl := joinSp l.obs.dropLast
@@ -593,22 +694,53 @@ def runToken (r : Report) (s : Section) : Report := Id.run do
           d := { d with conn := { d.conn with loaded := false } }
           r := r.addCover "t-fallow"
         -- an instance in rescue mode sends nothing; a cancelled context never reaches the server
-        let sent := (d.sys.insts i).alive && verb != "allowx"
-        let (r', c') := checkTrips r s.idx l.idx s!"{verb} inst={i}" d.conn rtTok sent
+        let sent := (d.sys.insts i).alive && ck.sends && typeOk
+        if !typeOk && (d.sys.insts i).alive then r := r.addCover "t-allow-client-type-unsupported-goes-local"
+        let (r', c') := checkTrips r s.idx l.idx s!"{verb} inst={i}" d.conn rtTok sent d.forged.isSome
         r := r'; d := { d with conn := c' }
-        if verb == "allowx" && (d.sys.insts i).alive then
-          -- cancelled context, instance on the store path: the script call fails with the context's error,
-          -- `return false`; neither the store nor the flags nor the local limiter are touched
-          d := { d with sys := (d.sys.step true c (.cancelledAlive i ns n)).1 }
+        if ck = .future then r := r.addCover "t-allow-deadline-far-away"
+        if !ck.sends && (d.sys.insts i).alive then
+          -- cancelled context / deadline passed, instance on the store path: the script call fails with the context's
+          -- error, `return false`; neither the store nor the flags nor the local limiter are touched
+          d := { d with sys := (d.sys.reserveArgs true c i ⟨ck, ns, n⟩).1 }
           let inst := d.sys.insts i
-          r := r.addCover "t-allow-cancelled"
+          r := r.addCover (if ck = .cancelled then "t-allow-cancelled" else "t-allow-deadline-passed")
+          if !d.up then r := r.addCover "t-allow-ctx-error-while-down"
+          if d.forged.isSome then r := r.addCover "t-allow-ctx-error-while-replies-forged"
           let model := s!"no a={b2s inst.alive} s={instFlags inst} {tokDump c d.sys.store}"
           if model ≠ impl then r := r.mismatch s.idx l.idx model impl
+          let what := if ck = .cancelled then "a cancelled context" else "a context whose deadline has passed"
           if l.obs.headD "?" ≠ "no" then
-            r := r.violation s.idx l.idx s!"token: request with a cancelled context was answered [{l.obs.headD "?"}] (must be refused)"
+            r := r.violation s.idx l.idx s!"token: request with {what} was answered [{l.obs.headD "?"}] (must be refused)"
+          else if ((kv? l.obs "s").getD "1").startsWith "0" then
+            r := r.violation s.idx l.idx s!"token: request with {what}: a caller-side context error was taken for a store failure, inst={i} left the shared bucket for its local limiter ({(kv? l.obs "s").getD ""}: redisAlive=0) although the store was never asked"
           continue
         -- (an instance in rescue mode never looks at the context: a cancelled call is an ordinary one)
-        if verb == "allowx" then r := r.addCover "t-allow-cancelled-in-rescue-mode"
+        if !ck.sends then r := r.addCover "t-allow-ctx-error-in-rescue-mode"
+        if d.forged.isSome && (d.sys.insts i).alive then
+          -- the server answers the EVALSHA itself: only the integer 1 grants, a string sends the instance to its local
+          -- limiter (with `n`, at `now`), everything else refuses; the shared bucket is not touched
+          let f := d.forged.getD .str
+          let obsOk := l.obs.headD "?"
+          let implOk : Option Bool := if obsOk = "ok" then some true else if obsOk = "no" then some false else none
+          let (d', mOk, route, bnd) := tokAllow c d i ns n implOk
+          d := d'
+          if bnd then
+            r := r.addCover "t-rescue-float-boundary"
+            d := { d with slack := fun j => if j = i then d.slack i + 1 else d.slack j }
+          let model := s!"{if mOk then "ok" else "no"} a=1 s={instFlags (d.sys.insts i)} {tokDump c d.sys.store}"
+          if model ≠ impl then r := r.mismatch s.idx l.idx model impl
+          r := r.addCover (match f with | .str => "t-allow-reply-string-goes-local" | .int _ => "t-allow-reply-integer-not-1" | .nil => "t-allow-reply-nil")
+          if n > burst then r := r.addCover "t-forged-n-over-burst"
+          if route = .store then
+            if implOk = some true && f ≠ .int 1 then
+              r := r.violation s.idx l.idx s!"token: the server answered {f.describe} without running the script but the request inst={i} n={n} was granted (only the integer reply 1 grants)"
+          else
+            d := noteRescue d i ns
+            if implOk = some true then
+              let (d', r') := localGrant c burst rate r s l d i ns n
+              d := d'; r := r'
+          continue
         let sec := ns / nsPerSec
         let clock := d.sys.store.clock
         let obsOk := l.obs.headD "?"
@@ -656,8 +788,97 @@ def runToken (r : Report) (s : Section) : Report := Id.run do
             let (d', r') := localGrant c burst rate r s l d i ns n
             d := d'; r := r'
       | _, _, _, _ => r := r.mismatch s.idx l.idx "bad-op" (joinSp l.op)
+    | [verb, i] =>
+      -- Allow() / AllowCtx(ctx): ONE token at the wall-clock time the entry point reads itself
+      match (verb == "allow0" || verb == "allowctx0" || verb == "allowx0" || verb == "allowd0" || verb == "allowf0"), i.toNat? with
+      | true, some i =>
+        let ck : CtxKind := if verb == "allowx0" then .cancelled else if verb == "allowd0" then .expired
+          else if verb == "allowf0" then .future else .background
+        let args : ReserveArgs := if verb == "allow0" then allowArgs 0 else allowCtxArgs ck 0
+        let n := args.n
+        let wTok := (kv? l.obs "w").getD ""
+        let rtTok := "rt=" ++ (kv? l.obs "rt").getD "?"
+        let impl := joinSp (l.obs.take 5)
+        match (match wTok.splitOn "," with
+          | [a, b] => (match a.toNat?, b.toNat? with | some a, some b => some (a, b) | _, _ => none)
+          | _ => none) with
+        | none => r := r.mismatch s.idx l.idx "w=<t0>,<t1>" (joinSp l.obs)
+        | some (t0, t1) =>
+        if t1 < t0 || t1 - t0 > 5 * nsPerSec then
+          r := r.mismatch s.idx l.idx "wall clock readings of one call" wTok
+          continue
+        r := r.addCover (if verb == "allow0" then "t-entry-Allow" else "t-entry-AllowCtx")
+        let inst0 := d.sys.insts i
+        let sent := inst0.alive && args.ctx.sends
+        let (r', c') := checkTrips r s.idx l.idx s!"{verb} inst={i}" d.conn rtTok sent d.forged.isSome
+        r := r'; d := { d with conn := c' }
+        let obsOk := l.obs.headD "?"
+        let implOk : Option Bool := if obsOk = "ok" then some true else if obsOk = "no" then some false else none
+        let refusedByReply := match d.forged with
+          | some f => reserveOutcome args.ctx f.treply != .rescue
+          | none => false
+        if inst0.alive && args.ctx.sends && refusedByReply then
+          -- the server answers the EVALSHA itself with an integer / nil: only the integer 1 grants, nothing is touched
+          let f := d.forged.getD .nil
+          r := r.addCover "t-entry-reply-forged-refused"
+          let exp := reserveOutcome args.ctx f.treply == .grant
+          let model := s!"{if exp then "ok" else "no"} a=1 s={instFlags inst0} {tokDump c d.sys.store}"
+          if model ≠ impl then r := r.mismatch s.idx l.idx model impl
+          if obsOk = "ok" && !exp then
+            r := r.violation s.idx l.idx s!"token: {verb}: the server answered {f.describe} without running the script but the request was granted (only the integer reply 1 grants)"
+        else if inst0.alive && !args.ctx.sends then
+          r := r.addCover (if ck = .cancelled then "t-entry-AllowCtx-cancelled" else "t-entry-AllowCtx-deadline-passed")
+          let model := s!"no a=1 s={instFlags inst0} {tokDump c d.sys.store}"
+          if model ≠ impl then r := r.mismatch s.idx l.idx model impl
+          if obsOk ≠ "no" then
+            r := r.violation s.idx l.idx s!"token: AllowCtx with a context that is {if ck = .cancelled then "cancelled" else "past its deadline"} was answered [{obsOk}] (must be refused: the context has to reach the script call)"
+          else if ((kv? l.obs "s").getD "1").startsWith "0" then
+            r := r.violation s.idx l.idx s!"token: AllowCtx: a caller-side context error was taken for a store failure, inst={i} left the shared bucket ({(kv? l.obs "s").getD ""})"
+        else if inst0.alive && d.up && d.forged.isNone then
+          -- store path: the second the script was given is the value it wrote to the timestamp key
+          let tsTok := (kv? l.obs "ts").getD "-"
+          match (tsTok.splitOn ":").headD "" |>.toNat? with
+          | none => r := r.mismatch s.idx l.idx "ts=<second>:<ttl> after a call that reached the store" impl
+          | some sec =>
+            if sec < t0 / nsPerSec || sec > t1 / nsPerSec then
+              r := r.violation s.idx l.idx s!"token: {verb}: the request was made at second {sec}, not at the current time (wall clock between {t0 / nsPerSec} and {t1 / nsPerSec}): Allow()/AllowCtx() are AllowN(time.Now(), 1)"
+            let clock := d.sys.store.clock
+            if d.hypOk && !timedOk ttl d.hist clock sec then
+              d := { d with hypOk := false }
+              r := r.addCover "t-hyp-broken"
+            d := { d with hist := (clock, sec) :: d.hist }
+            let (d', mOk, _, _) := tokAllow c d i (sec * nsPerSec) n implOk
+            d := d'
+            let model := s!"{if mOk then "ok" else "no"} a=1 s={instFlags (d.sys.insts i)} {tokDump c d.sys.store}"
+            if model ≠ impl then r := r.mismatch s.idx l.idx model impl
+            r := r.addCover (if mOk then "t-entry-store-grant" else "t-entry-store-deny")
+            match implOk with
+            | none => r := r.violation s.idx l.idx s!"token: unreadable decision [{impl}]"
+            | some ok =>
+              if d.hypOk then
+                let sp := d.bucket.allow rate burst sec n
+                d := { d with bucket := sp.1 }
+                if sp.2 ≠ ok then
+                  r := r.violation s.idx l.idx s!"token: {verb} is a request for ONE token now: joint bucket rate={rate} burst={burst} inst={i} now={sec} n=1 spec=[{if sp.2 then "ok" else "no"}] impl=[{obsOk}]"
+                if ok then
+                  let (d', r') := jointGrant burst rate r s l d sec n
+                  d := d'; r := r'
+        else
+          -- decided by the instance's local limiter at a wall-clock instant between t0 and t1 that the harness cannot
+          -- see: no decision is predicted; the flags are, and the local bound is monitored with the bracket as slack
+          if inst0.alive then d := { d with sys := (d.sys.step true c (.lateFail i)).1 }
+          if inst0.alive && d.forged.isSome then r := r.addCover "t-entry-reply-string-goes-local"
+          let model := s!"{obsOk} a={b2s inst0.alive} s={instFlags (d.sys.insts i)} {tokDump c d.sys.store}"
+          if model ≠ impl then r := r.mismatch s.idx l.idx model impl
+          r := r.addCover (if implOk = some true then "t-entry-rescue-grant" else "t-entry-rescue-deny")
+          d := { d with slack := fun j => if j = i then d.slack i + (t1 - t0) else d.slack j }
+          d := noteRescue d i t1
+          if implOk = some true then
+            let (d', r') := localGrant c burst rate r s l d i t1 n
+            d := d'; r := r'
+      | _, _ => r := r.mismatch s.idx l.idx "bad-op" (joinSp l.op)
     | ["cstorm", ns, n, g, cc] =>
-      if d.conn.link = .noscript || d.conn.link = .noscriptDown || d.conn.link = .shaDown || !d.conn.loaded then
+      if d.forged.isSome || d.conn.link = .noscript || d.conn.link = .noscriptDown || d.conn.link = .shaDown || !d.conn.loaded then
         r := r.addCover "t-concurrent-skipped-in-link-mode"
         if impl ≠ "skipped-link" then r := r.mismatch s.idx l.idx "skipped-link" impl
         continue
@@ -722,7 +943,7 @@ def runToken (r : Report) (s : Section) : Report := Id.run do
           d := d'; r := r'
       | _, _, _, _ => r := r.mismatch s.idx l.idx "bad-op" (joinSp l.op)
     | ["cmix", ns, ents] =>
-      if d.conn.link = .noscript || d.conn.link = .noscriptDown || d.conn.link = .shaDown || !d.conn.loaded then
+      if d.forged.isSome || d.conn.link = .noscript || d.conn.link = .noscriptDown || d.conn.link = .shaDown || !d.conn.loaded then
         r := r.addCover "t-concurrent-skipped-in-link-mode"
         if impl ≠ "skipped-link" then r := r.mismatch s.idx l.idx "skipped-link" impl
         continue
@@ -837,10 +1058,122 @@ def runTokenZ (r : Report) (s : Section) : Report := Id.run do
     | _ => r := r.mismatch s.idx l.idx "bad-op" (joinSp l.op)
   return r
 
+/-! ### several TokenLimiter keys on one store: every key is its own bucket -/
+
+def c03KeyName (q : Nat) : String := (["a", "ab", "", "a}.ts"][q % 4]?).getD "a"
+
+def updF {α : Type} (f : Nat → α) (i : Nat) (v : α) : Nat → α := fun j => if j = i then v else f j
+
+def runTokenKeys (r : Report) (s : Section) : Report := Id.run do
+  let nkeys := max 1 (kvNat s.cfg "nkeys" 1)
+  let nums (k : String) : List Nat := (((kv? s.cfg k).getD "1").splitOn ",").map fun x => x.toNat?.getD 1
+  let rates := nums "rates"
+  let bursts := nums "bursts"
+  let cfgOf (q : Nat) : TCfg := newTokenCfg (rates[q]?.getD 1) (bursts[q]?.getD 1) (c03KeyName q)
+  let mut sys : Sys := Sys.init (cfgOf 0)
+  let mut bucket : Nat → Spec.Bucket := fun q => Spec.Bucket.init (cfgOf q).burst
+  let mut joint : Nat → Spec.Meter := fun _ => Spec.Meter.init
+  let mut hist : Nat → List (Nat × Nat) := fun _ => []
+  let mut hyp : Nat → Bool := fun _ => true
+  let mut r := r.addCover s!"k-sec-{nkeys}-keys"
+  for l in s.lines do
+    r := { r with ops := r.ops + 1 }
+    let impl := joinSp l.obs
+    match l.op with
+    | ["ft", ms] =>
+      match ms.toNat? with
+      | some ms =>
+        sys := (sys.step true (cfgOf 0) (.ft ms)).1
+        r := r.addCover "k-ft"
+        if impl ≠ "ok" then r := r.mismatch s.idx l.idx "ok" impl
+      | none => r := r.mismatch s.idx l.idx "bad-op" (joinSp l.op)
+    | ["allow", i, ns, n] =>
+      match i.toNat?, ns.toNat?, n.toNat? with
+      | some i, some ns, some n =>
+        let q := i % nkeys
+        let c := cfgOf q
+        let sec := ns / nsPerSec
+        let clock := sys.store.clock
+        if hyp q && !timedOk (ttlFixed c.rate c.burst) (hist q) clock sec then
+          hyp := updF hyp q false
+          r := r.addCover "k-hyp-broken"
+        hist := updF hist q ((clock, sec) :: hist q)
+        let otherLive := (List.range nkeys).any fun q' => q' ≠ q && (sys.store.get (cfgOf q').k1).isSome
+        let res := sys.reserveN true c i ns n
+        sys := res.1
+        let model := s!"{if res.2.ok then "ok" else "no"} a={b2s (sys.insts i).alive} {tokDump c sys.store}"
+        if model ≠ impl then r := r.mismatch s.idx l.idx model impl
+        if res.2.route ≠ .store then r := r.mismatch s.idx l.idx "a request that reaches the store" impl
+        r := r.addCover (if res.2.ok then "k-grant" else "k-deny")
+        if otherLive then r := r.addCover "k-allow-while-other-key-holds-state"
+        if i ≥ nkeys then r := r.addCover "k-second-instance-of-a-key"
+        let obsOk := l.obs.headD "?"
+        if hyp q then
+          let sp := (bucket q).allow c.rate c.burst sec n
+          bucket := updF bucket q sp.1
+          if (if sp.2 then "ok" else "no") ≠ obsOk then
+            r := r.violation s.idx l.idx s!"token: key {q} of {nkeys} keys on one store is its own bucket (rate={c.rate} burst={c.burst}): inst={i} now={sec} n={n} spec=[{if sp.2 then "ok" else "no"}] impl=[{obsOk}]"
+          if obsOk = "ok" && n > 0 then
+            let m := (joint q).add c.rate sec n
+            joint := updF joint q m
+            if m.level > c.burst then
+              r := r.violation s.idx l.idx s!"token: key {q}: grants exceed burst + rate*elapsed (rate={c.rate} burst={c.burst}): excess level {m.level} > {c.burst} at now={sec}"
+      | _, _, _ => r := r.mismatch s.idx l.idx "bad-op" (joinSp l.op)
+    | ["kstorm", ns, n, g, cc] =>
+      match ns.toNat?, n.toNat?, g.toNat?, cc.toNat? with
+      | some ns, some n, some g, some cc =>
+        let ninst := max 1 (kvNat s.cfg "ninst" 1)
+        let sec := ns / nsPerSec
+        let clock := sys.store.clock
+        r := r.addCover "k-storm"
+        let mut parts : List String := []
+        for q in [0:nkeys] do
+          let c := cfgOf q
+          -- the calls of key q: goroutines j < g whose instance j % ninst has key index q, cc calls each
+          let callers := (List.range g).filter fun j => (j % ninst) % nkeys == q
+          let calls := callers.length * cc
+          let mut gq := 0
+          let mut specG := 0
+          if calls > 0 then
+            if hyp q && !timedOk (ttlFixed c.rate c.burst) (hist q) clock sec then
+              hyp := updF hyp q false
+              r := r.addCover "k-hyp-broken"
+            hist := updF hist q ((clock, sec) :: hist q)
+          for j in callers do
+            for _ in [0:cc] do
+              -- all calls of a key carry the same (now, n): their order does not matter
+              let res := sys.reserveN true c (j % ninst) ns n
+              sys := res.1
+              if res.2.ok then gq := gq + 1
+              if res.2.route ≠ .store then r := r.mismatch s.idx l.idx "a request that reaches the store" impl
+              if hyp q then
+                let sp := (bucket q).allow c.rate c.burst sec n
+                bucket := updF bucket q sp.1
+                if sp.2 then specG := specG + 1
+          parts := parts ++ [s!"g{q}={gq}", tokDump c sys.store]
+          let obsG := ((kv? l.obs s!"g{q}").getD "?")
+          if calls > 0 && hyp q then
+            if obsG ≠ toString specG then
+              r := r.violation s.idx l.idx s!"token: key {q} of {nkeys} keys on one store is its own bucket (rate={c.rate} burst={c.burst}): {calls} concurrent requests n={n} now={sec}: ONE bucket grants {specG}, impl granted [{obsG}]"
+            if calls > specG then r := r.addCover "k-storm-some-denied"
+            let granted := (obsG.toNat?.getD 0) * n
+            if granted > 0 then
+              let m := (joint q).add c.rate sec granted
+              joint := updF joint q m
+              if m.level > c.burst then
+                r := r.violation s.idx l.idx s!"token: key {q}: grants exceed burst + rate*elapsed (rate={c.rate} burst={c.burst}): excess level {m.level} > {c.burst} at now={sec}"
+        let model := s!"alive={ninst} {joinSp parts}"
+        if model ≠ impl then r := r.mismatch s.idx l.idx model impl
+      | _, _, _, _ => r := r.mismatch s.idx l.idx "bad-op" (joinSp l.op)
+    | _ => r := r.mismatch s.idx l.idx "bad-op" (joinSp l.op)
+  return r
+
 def runSection (r : Report) (s : Section) : Report :=
   match kv? s.cfg "kind" with
   | some "period" => runPeriod r s
   | some "token" => runToken r s
+  | some "tokennow" => runToken (r.addCover "t-sec-wall-clock-entry-points") s
+  | some "tokenkeys" => runTokenKeys r s
   | some "tokenz" => runTokenZ r s
   | _ => r.mismatch s.idx 0 "bad-section" (joinSp s.cfg)
 
